@@ -157,6 +157,16 @@ func (c18Engine) Run(raw json.RawMessage) (interface{}, error) {
 		return string(b)
 	}
 	snaps := []c18Snap{}
+	var saved []pgs.BuildContext // every context value handed out, to be asked again at the end
+	observe := func(ctx pgs.BuildContext) c18Snap {
+		drain()
+		ctx.Log("m")
+		l1 := strings.TrimSuffix(drain(), "\n")
+		ctx.Logf("f")
+		l2 := strings.TrimSuffix(drain(), "\n")
+		id, _ := ctx.Parameters().Int("id")
+		return c18Snap{toB(ctx.OutputPath()), toB(ctx.JoinPath("x", "../y")), toB(l1), toB(l2), id}
+	}
 	for _, op := range in.Ops {
 		var next pgs.BuildContext
 		switch op.K {
@@ -179,15 +189,21 @@ func (c18Engine) Run(raw json.RawMessage) (interface{}, error) {
 			}
 		}
 		ctx = next
-		drain()
-		ctx.Log("m")
-		l1 := strings.TrimSuffix(drain(), "\n")
-		ctx.Logf("f")
-		l2 := strings.TrimSuffix(drain(), "\n")
-		id, _ := ctx.Parameters().Int("id")
-		snaps = append(snaps, c18Snap{toB(ctx.OutputPath()), toB(ctx.JoinPath("x", "../y")), toB(l1), toB(l2), id})
+		snaps = append(snaps, observe(ctx))
+		saved = append(saved, ctx)
 	}
-	return snaps, nil
+	// contexts are values: every context handed out during the history must still answer, after
+	// everything that was derived from it or from its relatives, what it answered then. (Through a
+	// module base there is one mutable holder, so the first pass is repeated as it is.)
+	late := make([]c18Snap, 0, len(snaps))
+	for i, c := range saved {
+		if mod != nil {
+			late = append(late, snaps[i])
+		} else {
+			late = append(late, observe(c))
+		}
+	}
+	return append(snaps, late...), nil
 }
 
 func init() { register("c18", c18Engine{}) }
